@@ -36,6 +36,41 @@ def call_order(body, names, what):
     return seq
 
 
+SKEL_CALLS = ["weakly_canonical", "isContained", "is_regular_file", "buildEntry", "readFile", "blobFromEntry", "findStatic", "isExternalPath"]
+SKEL_VARS = ["base", "candidate", "resolved", "gz", "externalDir", "key"]
+
+
+def skeleton(body, what):
+    """the security-relevant statements of a lookup WITH their operands, in source order: definitions of base / candidate /
+    resolved / gz / key and the calls of the checked functions with their argument lists (white space normalised).
+    `isContained(base, candidate)` or `weakly_canonical(base)` instead of the expected operands changes this list."""
+    items = []
+    for m in re.finditer(r"(?<![\w.>])(?:const\s+)?(?:[\w:]+(?:<[^;=]*>)?\s*[&*]?\s+)?(%s)\s*(\+?=|\()\s*([^;]*);" % "|".join(SKEL_VARS), body):
+        stmt = "%s %s %s" % (m.group(1), "=" if m.group(2) == "(" else m.group(2), (m.group(3).rstrip()[:-1] if m.group(3).rstrip().endswith(")") else m.group(3)) if m.group(2) == "(" else m.group(3))
+        items.append((m.start(), m.end(), re.sub(r"\s+", " ", stmt).strip()))
+    call = re.compile(r"(?<![\w])(%s)\s*\(" % "|".join(SKEL_CALLS))
+    for m in call.finditer(body):
+        if any(a <= m.start() < b for a, b, _ in items):
+            continue
+        i = m.end() - 1
+        depth = 0
+        j = i
+        while j < len(body):
+            if body[j] == "(":
+                depth += 1
+            elif body[j] == ")":
+                depth -= 1
+                if depth == 0:
+                    break
+            j += 1
+        items.append((m.start(), j + 1, re.sub(r"\s+", " ", "%s(%s)" % (m.group(1), body[i + 1:j])).strip()))
+    items.sort()
+    out = [t for _, _, t in items]
+    if not out:
+        raise TranslateError("%s: no skeleton statements found" % what)
+    return out
+
+
 def defn(src, name):
     """body of the DEFINITION of `name` (its parameter list mentions a std:: type; call sites never do)"""
     return cxxscan.function_body(src, name, signature_contains="std::")
@@ -116,7 +151,7 @@ def gen(repo):
         raise TranslateError("mimeForExtension: table not recognised")
 
     def qs(xs):
-        return "[" + ", ".join('"%s"' % x for x in xs) + "]"
+        return "[" + ", ".join('"%s"' % x.replace("\\", "\\\\").replace('"', '\\"') for x in xs) + "]"
 
     t = HEADER % F
     t += "namespace Iora.Gen.Assets\n"
@@ -145,6 +180,12 @@ def gen(repo):
     t += "def getStaticFilesystemCalls : List String := %s\n" % qs(gs)
     t += "def getTemplateFilesystemCalls : List String := %s\n" % qs(gt)
     t += "def getStaticEmbeddedCalls : List String := %s\n" % qs(ge)
+    t += "/-- the same paths WITH operands: definitions of base/candidate/resolved/gz/key and argument lists of the checked calls -/\n"
+    t += "def getStaticFilesystemSkel : List String := %s\n" % qs(skeleton(defn(src, "getStaticFilesystem"), "getStaticFilesystem"))
+    t += "def getTemplateFilesystemSkel : List String := %s\n" % qs(skeleton(defn(src, "getTemplateFilesystem"), "getTemplateFilesystem"))
+    t += "def getStaticEmbeddedSkel : List String := %s\n" % qs(skeleton(defn(src, "getStaticEmbedded"), "getStaticEmbedded"))
+    t += "def buildEntrySkel : List String := %s\n" % qs(skeleton(be, "buildEntry"))
+    t += "def isContainedSkel : List String := %s\n" % qs([re.sub(r"\s+", " ", x).strip() for x in re.findall(r"(?:rel\s*=[^;]*|return[^;]*);", ic)])
     t += "/-- `mimeForExtension`: table (extension, mime) and default -/\n"
     t += "def mimeTable : List (String × String) := [%s]\n" % ", ".join('("%s", "%s")' % (a, b) for a, b in table)
     t += "def mimeDefault : String := \"%s\"\n" % md.group(1)
